@@ -467,6 +467,12 @@ pub fn model(spec: &NodeSpec, ins: &[Out], clock: &Result<i64, Er>) -> Expect {
                 (x @ Out::Some(..), Out::None) => Exactly(x),
                 (Out::Some(t1, a), Out::Some(t2, bv)) => {
                     if b == "exp" {
+                        // with std the crate's power function IS f32::powf: the value is decided bit for bit
+                        // (the no_std back ends are compared across builds by C19 instead)
+                        #[cfg(not(any(feature = "v_libm", feature = "v_micromath")))]
+                        if let (Val::F(x), Val::F(y)) = (a, bv) {
+                            return Exactly(Out::Some(tmax(t1, t2), Val::F(fbits(f32::from_bits(x).powf(f32::from_bits(y))))));
+                        }
                         SomeAt(tmax(t1, t2))
                     } else {
                         Exactly(Out::Some(
@@ -1245,11 +1251,37 @@ fn gen_c02_enum3(prop: &str, rng: &mut Rng, seed: u64, run: u64, k: u64) -> Plan
     plan
 }
 
+/// fourth enumerated block: the binary f32 combinators over a grid of landmark values (unordered, infinite,
+/// extreme, subnormal, zeros of both signs, and the exponents / factors for which an implementation is
+/// tempted to take a short cut: 0.5, 1, 2, 3, -1): one row of the grid per plan
+const ENUM4_KINDS: [&str; 5] = ["exp.f", "quot.f", "diff.f", "sum2.f", "prod2.f"];
+const VGRID: [f32; 16] = [
+    f32::NAN, f32::NEG_INFINITY, -f32::MAX, -2.0, -1.0, -0.5, -1e-42, -0.0, 0.0, 1e-42, 0.5, 1.0, 2.0, 3.0, f32::MAX, f32::INFINITY,
+];
+pub fn enum4_total() -> u64 {
+    (ENUM4_KINDS.len() * VGRID.len()) as u64
+}
+fn gen_c02_enum4(prop: &str, rng: &mut Rng, seed: u64, run: u64, k: u64) -> Plan {
+    let mut plan = Plan::new("comb", prop, seed, run);
+    let kind = ENUM4_KINDS[(k / VGRID.len() as u64) as usize];
+    let a = VGRID[(k % VGRID.len() as u64) as usize];
+    plan.sets("nodes", &nodes_text(&[NodeSpec { kind: kind.into(), ins: vec!["f0".into(), "f1".into()], clock: 0, param: 0 }]));
+    plan.sets("equiv", "");
+    let t = rng.range(-1_000_000_000, 1_000_000_000);
+    plan.push("LF", &[0, t, fb(a)]);
+    for (j, b) in VGRID.iter().enumerate() {
+        plan.push("LF", &[1, t + j as i64, fb(*b)]);
+    }
+    plan
+}
+
 /// leaf values of the random stateless plans: the moderate pool, and now and then an f32 that is special
 /// (signed zero, infinities, NaN, the largest and smallest normal, a subnormal) - "values random"
 fn leaf_value(rng: &mut Rng) -> f32 {
     if rng.chance(0.04) {
         *rng.pick(&[-0.0f32, f32::INFINITY, f32::NEG_INFINITY, f32::NAN, f32::MAX, -f32::MAX, f32::MIN_POSITIVE, 1e-42])
+    } else if rng.chance(0.04) {
+        *rng.pick(&[0.5f32, 1.0, 2.0, 3.0, -1.0, -0.5, 0.0, 0.25])
     } else {
         rng.moderate_f32()
     }
@@ -1264,6 +1296,9 @@ pub fn gen_c02(prop: &str, tier: Tier, rng: &mut Rng, seed: u64, run: u64) -> Pl
     }
     if run < C02_ENUM + enum2_total() + enum3_total() && prop == "C02" {
         return gen_c02_enum3(prop, rng, seed, run, run - C02_ENUM - enum2_total());
+    }
+    if run < C02_ENUM + enum2_total() + enum3_total() + enum4_total() && prop == "C02" {
+        return gen_c02_enum4(prop, rng, seed, run, run - C02_ENUM - enum2_total() - enum3_total());
     }
     let mut plan = Plan::new("comb", prop, seed, run);
     let mut specs: Vec<NodeSpec> = Vec::new();
@@ -1537,11 +1572,11 @@ pub fn gen_graph(prop: &str, tier: Tier, rng: &mut Rng, seed: u64, run: u64) -> 
 
 /// first run index after the enumerated blocks
 pub fn enum_end() -> u64 {
-    C02_ENUM + enum2_total() + enum3_total()
+    C02_ENUM + enum2_total() + enum3_total() + enum4_total()
 }
 
 pub fn generate(prop: &str, tier: Tier, rng: &mut Rng, seed: u64, run: u64) -> Plan {
-    if run >= C02_ENUM + enum2_total() + enum3_total() && run % 8 == 7 {
+    if run >= enum_end() && run % 8 == 7 {
         return gen_graph(prop, tier, rng, seed, run);
     }
     gen_c02(prop, tier, rng, seed, run)
